@@ -228,6 +228,42 @@ func execFaults(args []string) string {
 		up := gws.NewUpgrader(newRecorder(), &gws.ServerOption{Logger: quietLogger{}, HandshakeTimeout: 300 * time.Millisecond})
 		conn, err := up.UpgradeFromConn(sc, br, req)
 		return hsVerdict(conn, err, sc, peer)
+	case "close-via-write": // a Close frame sent through the generic write API must close the connection like WriteClose
+		sh := newRecorder()
+		s, sc, _, err := serverConnRaw(&gws.ServerOption{}, sh, "")
+		if err != nil {
+			return "handshake-failed"
+		}
+		api := args[1]
+		var e1 error
+		switch api {
+		case "msg":
+			e1 = s.WriteMessage(gws.OpcodeCloseConnection, []byte{0x03, 0xe8, 'b', 'y', 'e'})
+		case "v":
+			e1 = s.Writev(gws.OpcodeCloseConnection, []byte{0x03, 0xe8}, []byte("bye"))
+		case "async":
+			done := make(chan error, 1)
+			s.WriteAsync(gws.OpcodeCloseConnection, []byte{0x03, 0xe8}, func(e error) { done <- e })
+			e1 = <-done
+		case "vasync":
+			done := make(chan error, 1)
+			s.WritevAsync(gws.OpcodeCloseConnection, [][]byte{{0x03, 0xe8}, []byte("bye")}, func(e error) { done <- e })
+			e1 = <-done
+		case "bc":
+			b := gws.NewBroadcaster(gws.OpcodeCloseConnection, []byte{0x03, 0xe8, 'b', 'y', 'e'})
+			e1 = b.Broadcast(s)
+			drainAsync(s)
+			_ = b.Close()
+		}
+		e2 := s.WriteMessage(gws.OpcodeText, []byte("after"))
+		e3 := s.WriteClose(1001, nil)
+		fs, _ := decodeFrames(sc.Tap())
+		var ops []string
+		for _, f := range fs {
+			ops = append(ops, strconv.Itoa(int(f.opcode)))
+		}
+		return fmt.Sprintf("first=%s later-write=%s later-close=%s frames=%s closed=%s transport-closed=%s", retClass(e1), retClass(e2), retClass(e3),
+			strings.Join(ops, ","), b2s(gws.VerifIsClosed(s)), b2s(sc.IsClosed()))
 	case "stall-close": // a local close while another writer is stalled on a peer that stopped reading
 		sh := newRecorder()
 		s, sc, _, err := serverConnRaw(&gws.ServerOption{}, sh, "")
@@ -319,6 +355,9 @@ func genFaults(g *Gen) {
 		for _, kind := range []string{"err", "eof"} {
 			g.Emit("faults hs-client r %d %s", k, kind)
 		}
+	}
+	for _, api := range []string{"msg", "v", "async", "vasync", "bc"} {
+		g.Emit("faults close-via-write %s", api)
 	}
 	g.Emit("faults hs-client-stall")
 	g.Emit("faults stall-close")
